@@ -379,8 +379,11 @@ class SSETransport(Transport):
                         self._message_url = f"{self.base_url}?{endpoint_path}"
                     else:
                         self._message_url = f"{self.base_url}/messages/?{endpoint_path}"
+                elif endpoint_path:
+                    # A bare relative reference ("messages"): relative to the SSE
+                    # endpoint <base>/sse, like the forms above
+                    self._message_url = f"{self.base_url}/{endpoint_path}"
                 else:
-                    # Direct URL
                     self._message_url = endpoint_path
 
             # Extract session ID from various patterns
